@@ -378,6 +378,16 @@ def check_artefact(ctx, a, stats):
                 stats["n_g23"] += int(vz.sum())
                 rep.check("sign(g_23)=sign(g_33*dzShift/dy)", loc, np.where(q > 0, 0.0, 1.0), 0.5, np.isfinite(q),
                           extra=dict(ratio=q))
+                # integrated form between the staggered locations of the same file: d(zShift)/dy
+                # has one sign along a field line, so the value at a cell's y-centre lies strictly
+                # between the values at its two y-faces (no tolerance, no sign convention)
+                if loc in ("centre", "xlow"):
+                    lo_, mid_ = (zs["ylow"], zs["centre"]) if loc == "centre" else (zs["corners"], zs["xlow"])
+                    a_ = mid_ - lo_[:, :-1]
+                    b_ = lo_[:, 1:] - mid_
+                    rep.check("zShift at the y-centre lies between its y-face values", loc,
+                              np.where(a_ * b_ > 0, 0.0, 1.0), 0.5, vz & np.isfinite(a_) & np.isfinite(b_),
+                              extra=dict(from_lower_face=a_, to_upper_face=b_))
                 # (the magnitude of d(zShift)/dy is judged by C06 against the field-line integral;
                 # |g_23| = |dphidy| R^2 is judged above - a pointwise value cannot be compared with
                 # a cell average next to an X-point)
